@@ -108,6 +108,7 @@ def r3_conservation(ctx):
         return
     loop = cfg.cycle_blocks(nxt[0].bb)
     writes = calls_norm(body, "AsyncWriteExt::write_all")
+    ctx.floor("R04.3", "write_all calls in write_with_padding", len(writes), 7)
     # classify sources
     frames = {l for l in _padding_frames(ctx, body, o)}
     for i, w in enumerate(writes):
